@@ -64,10 +64,31 @@ fn build(alpha: &[Op], hist: &[usize], resume: bool) -> Built {
             Op::Put(h, ..) => m.handles.get(h).map(|x| x.mode == Mode::Random).unwrap_or(false),
             _ => false,
         };
-        let lines = op_lines(op, random_open);
+        let mut lines = op_lines(op, random_open);
+        // under the trap an INPUT # with two targets shows both targets afterwards whatever happened: a target read before
+        // the failing one holds its field, the others keep what they held (targets are read one at a time)
+        let mut after_line: Option<Vec<u8>> = None;
+        if resume && let Op::Input2(h) = op {
+            let mut probe = m.clone();
+            let mut field = |d: &str| -> Vec<u8> {
+                match probe.step(&Op::Input1(*h)) {
+                    Step::Ok(o) if o.len() >= 4 => o[1..o.len() - 3].to_vec(),
+                    _ => d.as_bytes().to_vec(),
+                }
+            };
+            let f1 = field("?a");
+            let f2 = if f1 == b"?a" { b"?b".to_vec() } else { field("?b") };
+            lines.insert(0, "A$ = \"?a\": B$ = \"?b\"".to_string());
+            let mut want = b"<".to_vec();
+            want.extend(f1);
+            want.push(b'|');
+            want.extend(f2);
+            want.extend_from_slice(b">\r\n");
+            after_line = Some(want);
+        }
         let step = m.step(op);
         // which line can fail: the last statement that touches the file (PUT after LSET), else the first
-        let fail_line = if matches!(op, Op::Put(..)) && random_open { 1 } else { 0 };
+        let fail_line = if (matches!(op, Op::Put(..)) && random_open) || after_line.is_some() { 1 } else { 0 };
         if resume {
             text.push_str("F% = 0\n");
             row += 1;
@@ -82,6 +103,11 @@ fn build(alpha: &[Op], hist: &[usize], resume: bool) -> Built {
             }
             row += 1;
         }
+        if after_line.is_some() && !matches!(step, Step::Undecided(_)) {
+            text.push_str("PRINT \"<\"; A$; \"|\"; B$; \">\"\n");
+            row += 1;
+        }
+        let after = if matches!(step, Step::Undecided(_)) { None } else { after_line };
         match step {
             Step::Ok(out) => stdout.extend(out),
             Step::Code(c) => {
@@ -106,6 +132,9 @@ fn build(alpha: &[Op], hist: &[usize], resume: bool) -> Built {
                 undecided = Some(w);
                 break;
             }
+        }
+        if let Some(a) = after {
+            stdout.extend(a);
         }
     }
     if end.is_none() {
@@ -693,6 +722,26 @@ pub fn drive(tier: &str) -> i32 {
     let mut rs = vec![];
     let mut und2 = 0u64;
     tree(&alpha, rdepth, 2, &mut rs, &mut und2);
+    // and the histories in which an INPUT # with two targets finds one field only (files with an odd number of fields):
+    // the first target is read, the second one fails
+    {
+        let ix = |op: Op| alpha.iter().position(|o| *o == op);
+        for h in 1..=HANDLES {
+            let seqs: Vec<Vec<Op>> = vec![
+                vec![Op::Open(h, Mode::Input, 2), Op::Input2(h), Op::Input2(h), Op::Eof(h)],
+                vec![Op::Open(h, Mode::Input, 2), Op::LineInput(h), Op::Input2(h), Op::Input2(h)],
+                vec![Op::Open(h, Mode::Output, 0), Op::Print(h, 0), Op::Close(h), Op::Open(h, Mode::Input, 0), Op::Input2(h), Op::Eof(h)],
+                vec![Op::Open(h, Mode::Output, 0), Op::Print(h, 1), Op::Print(h, 0), Op::Close(h), Op::Open(h, Mode::Input, 0), Op::Input2(h), Op::Input2(h)],
+                vec![Op::Open(h, Mode::Output, 0), Op::Print(h, 2), Op::Close(h), Op::Open(h, Mode::Input, 0), Op::Input2(h), Op::InputNum(h)],
+            ];
+            for seq in seqs {
+                let idx: Option<Vec<usize>> = seq.into_iter().map(ix).collect();
+                if let Some(v) = idx {
+                    rs.push(v);
+                }
+            }
+        }
+    }
     plan.push(json!({"group": "trap", "depth": rdepth, "violations_allowed": 2, "histories": rs.len()}));
     for c in rs.chunks(100) {
         cases.push(json!({"g": "trap", "resume": true, "items": c}));
